@@ -46,11 +46,17 @@ func (o *OracleC01) check(n *Node, idx uint32, h Hash, how string) {
 }
 
 func (o *OracleC01) OnOut(n *Node, st *Step, out *Out) {
-	if out.Kind != OProcessBlock || !n.honest {
+	if out.Kind != OProcessBlock {
+		return
+	}
+	// the certificate of EVERY library instance's acceptance is recorded (an amnesia node is
+	// budgeted as faulty, but it runs the library: a block it accepts on unverified early
+	// commits - known finding D1 - reaches honest nodes through ledger sync)
+	o.s.recordAccept(n, &Block{Header: *out.Hdr})
+	if !n.honest {
 		return
 	}
 	o.s.st.Decided++
-	o.s.recordAccept(n, &Block{Header: *out.Hdr})
 	o.check(n, out.Hdr.Idx, out.Hash, "was handed")
 }
 
